@@ -521,6 +521,7 @@ package profile
 //@ func Profile.Normalize arith bv floatabs=yes
 //@   requires samplesok(p) && samplesok(pb) && typesok(p) && typesok(pb)
 //@   ensures incompatible: result != nil <==> !sametypes(p, pb)
+//@   callsite Profile.ScaleN ratios: len($arg1) == len(p.SampleType) && forall i int :: 0 <= i && i < len($arg1) ==> same($arg1[i], ite(srcVals[i] == 0, 0.0, float64(baseVals[i]) / float64(srcVals[i])))
 //@   loop 1
 //@     invariant 0 <= $i && $i <= len(pb.Sample) && len(baseVals) == len(p.SampleType) && len(pb.SampleType) == len(p.SampleType) && samplesok(pb) && samplesok(p)
 //@   loop 2
@@ -531,6 +532,7 @@ package profile
 //@     invariant 0 <= $i && $i <= len(s.Value) && len(srcVals) == len(p.SampleType) && len(s.Value) == len(p.SampleType)
 //@   loop 5
 //@     invariant 0 <= $i && $i <= len(baseVals) && len(normScale) == len(baseVals) && len(srcVals) == len(baseVals) && len(baseVals) == len(p.SampleType) && samplesok(p)
+//@     invariant forall j int :: 0 <= j && j < $i ==> same(normScale[j], ite(srcVals[j] == 0, 0.0, float64(baseVals[j]) / float64(srcVals[j])))
 
 // ---- C14/C02: legacy binary profile readers ----
 
